@@ -183,9 +183,11 @@ class SSHConfig:
         # such line (or the trailing whitespace/end of the file); only look for the keyword at the
         # start of a line so that "host" inside of a host name, a value or a comment does not split
         # the entry, and match host[ \t=] to ensure we don't pick up hostname and split things
-        # there accidentally
+        # there accidentally; a `Match` block ends the preceding host entry as well (what is in the
+        # block applies to no `Host` entry)
         host_pattern = re.compile(
-            r"^[ \t]*host[ \t=].*?(?=^[ \t]*host[ \t=]|\s*\Z)", flags=re.I | re.S | re.M
+            r"^[ \t]*host[ \t=].*?(?=^[ \t]*(?:host|match)[ \t=]|\s*\Z)",
+            flags=re.I | re.S | re.M,
         )
         host_entries = re.findall(pattern=host_pattern, string=self.ssh_config)
 
